@@ -74,8 +74,98 @@ let show_ev = function
 let csv_nats (s : string) : nat list =
   if s = "-" then [] else List.map (fun x -> nat_of_int (int_of_string x)) (String.split_on_char ',' s)
 let kind_of = function "I" -> KInt | "U" -> KU32 | "S" -> KStr | "B" -> KBool | "N" -> KInternal | _ -> failwith "kind"
-let run_case (var : variant) (line : string) : string =
-  let f = Array.of_list (tokens line) in
+(* concurrent mode: search for a sequential order of the threads' operations that explains every
+   observed result and the final state (linearizability w.r.t. the model) *)
+let run_conc (var : variant) reg g (f : string array) (p0 : int) (impl : string) : string =
+  if p0 + 1 >= Array.length f || f.(p0) <> "threads" then "badline" else begin
+    let nt = int_of_string f.(p0 + 1) in
+    let scripts = Array.make nt [] in
+    let t = ref 0 in
+    for i = p0 + 2 to Array.length f - 1 do
+      if f.(i) = "|" then incr t else scripts.(!t) <- scripts.(!t) @ [f.(i)]
+    done;
+    (* observed results *)
+    let halves = Str.split (Str.regexp_string " | ") impl in
+    match halves with
+    | [res_part; final] ->
+      let obs = Array.make nt [||] in
+      List.iter (fun tok ->
+          match String.index_opt tok ':' with
+          | Some i when String.length tok > 1 && tok.[0] = 'T' ->
+            let k = int_of_string (String.sub tok 1 (i - 1)) in
+            let r = String.sub tok (i + 1) (String.length tok - i - 1) in
+            if k < nt then obs.(k) <- Array.of_list (if r = "" then [] else String.split_on_char ',' r)
+          | _ -> ()) (tokens res_part);
+      let scr = Array.map Array.of_list scripts in
+      let ok_shape = ref true in
+      Array.iteri (fun i a -> if Array.length a <> Array.length obs.(i) then ok_shape := false) scr;
+      if not !ok_shape then "SHAPE-MISMATCH" else begin
+        let show_final st =
+          let s = snapshot st in
+          String.concat " " (Array.to_list (Array.mapi (fun i c -> comp_names.(i) ^ "=" ^ c) s)) in
+        let budget = ref 2000000 in
+        let dead : (string, unit) Hashtbl.t = Hashtbl.create 1024 in
+        let key st pos sids trace = Marshal.to_string (st, pos, sids, trace) [Marshal.No_sharing] in
+        let rec go st pos sids trace =
+          let k = key st pos sids trace in
+          if Hashtbl.mem dead k then false else
+          let r = go' st pos sids trace in
+          if not r then Hashtbl.replace dead k ();
+          r
+        and go' st pos sids trace =
+          decr budget;
+          if !budget < 0 then false else
+          if Array.for_all2 (fun p a -> p = Array.length a) pos scr then
+            show_final st ^ " A=" ^ (match List.rev trace with [] -> "-" | l -> String.concat "," (List.map show_ev l)) = final
+          else begin
+            let found = ref false in
+            let i = ref 0 in
+            while not !found && !i < nt do
+              let k = !i in
+              if pos.(k) < Array.length scr.(k) then begin
+                let optok0 = scr.(k).(pos.(k)) in
+                let explicit = String.length optok0 >= 2 && optok0.[1] >= '0' && optok0.[1] <= '9'
+                               && (optok0.[0] = 's' || optok0.[0] = 'm' || optok0.[0] = 'x') in
+                let my = if explicit then n_of_int (Char.code optok0.[1] - 48) else sids.(k) in
+                let optok = if explicit then String.sub optok0 0 1 ^ String.sub optok0 2 (String.length optok0 - 2) else optok0 in
+                let o =
+                  if optok = "c" then Some OCreate
+                  else if optok = "x" then Some (OClose my)
+                  else if optok = "d" then Some (ODelete my)
+                  else if optok = "m" then Some (OCommit (my, no_faults))
+                  else if optok = "g" then None
+                  else if String.length optok > 2 && String.sub optok 0 2 = "s:" then begin
+                    match String.split_on_char ':' optok with
+                    | [_; path; v] -> Some (OSet (my, path_of_string path, value_of_token v, false))
+                    | _ -> failwith "bad conc op" end
+                  else failwith "bad conc op" in
+                let (st', rtok, sid', evs) =
+                  match o with
+                  | None -> (st, "ok", sids.(k), [])
+                  | Some o ->
+                    let ((st', r), evs) = step var reg g st o in
+                    (st', show_res r, (match r with RId x -> x | _ -> sids.(k)), evs) in
+                if rtok = obs.(k).(pos.(k)) then begin
+                  let pos' = Array.copy pos and sids' = Array.copy sids in
+                  pos'.(k) <- pos.(k) + 1; sids'.(k) <- sid';
+                  if go st' pos' sids' (List.rev_append evs trace) then found := true
+                end
+              end;
+              incr i
+            done;
+            !found
+          end in
+        if go (init_state empty_store) (Array.make nt 0) (Array.make nt N0) [] then impl
+        else if !budget < 0 then "SEARCH-BUDGET-EXHAUSTED"
+        else "NOT-LINEARIZABLE"
+      end
+    | _ -> "IMPL-LINE-UNPARSABLE"
+  end
+
+let run_case (var : variant) (line0 : string) (impl : string) : string =
+  let f0 = Array.of_list (tokens line0) in
+  let conc = Array.length f0 > 0 && f0.(0) = "conc" in
+  let f = if conc then Array.sub f0 1 (Array.length f0 - 1) else f0 in
   if Array.length f < 2 || f.(0) <> "reg" then "badline" else begin
     let n = int_of_string f.(1) in
     let p = ref 2 in
@@ -93,6 +183,7 @@ let run_case (var : variant) (line : string) : string =
         let cp = [intern "interfaces"; intern ifn] in
         Some ((cp, cp @ [intern "mtu"]), z_of_string (string_of_int (mru + 12)))
       end else None in
+    if conc then run_conc var reg g f !p impl else
     if !p >= Array.length f || f.(!p) <> "ops" then "badline" else begin
       incr p;
       let st = ref (init_state empty_store) in
@@ -138,6 +229,9 @@ let () =
       (match Sys.argv.(3) with
        | "defective" -> defective | "persist_defect" -> persistDefect | "set_defect" -> setDefect | _ -> repaired)
     else repaired in
-  List.iter (fun line ->
+  let impls = if Array.length Sys.argv > 2 && Sys.argv.(2) <> "-" then read_lines Sys.argv.(2) else [] in
+  let impls = Array.of_list impls in
+  List.iteri (fun i line ->
       Hashtbl.reset tbl; Hashtbl.reset names; Hashtbl.replace tbl "<*>" 0; Hashtbl.replace names 0 "<*>";
-      print_endline (try run_case var line with e -> "modelerror " ^ Printexc.to_string e)) lines
+      let impl = if i < Array.length impls then impls.(i) else "" in
+      print_endline (try run_case var line impl with e -> "modelerror " ^ Printexc.to_string e)) lines
